@@ -321,7 +321,27 @@ def check_bytes(c, kind, b, valid):
         check_equal_to_memory(c, b, buf, off, kind)
 
 
+def many_scopes(c):
+    """counts that need a 3-byte CompactSize (>= 253 inputs / outputs): offsets computed from the width of the count
+    field. The Lean view model walks scopes from the start (quadratic), so these are judged by the property predicate on
+    embit alone - view against fully parsed PSBT - which is linear."""
+    from embit.transaction import TransactionInput, TransactionOutput
+    from embit.script import Script
+    for (nin, nout) in ((1, 253), (253, 1), (2, c.rng.randrange(254, 300)), (c.rng.randrange(254, 300), 2), (252, 252)):
+        tx = gen.gen_tx(c.rng, segwit=False, max_in=1, max_out=1)
+        tx.vin = [TransactionInput(gen.rbytes(c.rng, 32), c.rng.randrange(4), Script(b""), gen.pick_u32(c.rng)) for _ in range(nin)]
+        tx.vout = [TransactionOutput(c.rng.randrange(10 ** 6), Script(gen.rbytes(c.rng, c.rng.choice([0, 1, 22, 34]))))
+                   for _ in range(nout)]
+        for version in (0, 2):
+            b = gen.build_psbt(tx, version, rng=c.rng)
+            pre = gen.rbytes(c.rng, c.rng.choice([0, 7]))
+            c.count(("many", version, nin, nout, b), nontrivial=True)
+            c.tally("many-scopes:v%d:in%d/out%d" % (version, nin, nout))
+            check_equal_to_memory(c, b, pre + b, len(pre), "many-scopes")
+
+
 def explore(c, n, big):
+    many_scopes(c)
     for k in range(n):
         # a 250-scope PSBT costs ~85 s of driver time in view.all: six of them in the thorough tier, not thirty
         g = gen_psbt.gen_psbt(c.rng, big=(big and k % 100 == 3))
